@@ -319,6 +319,27 @@ pub fn fat_edge_inputs(thorough: bool) -> Vec<Input> {
     v
 }
 
+/// The input whose coded block is as large as a block can get: period-20 000 text with one byte
+/// changed every 200 (so the LZ code buffer fills up with ~199-byte matches at a distance with 13
+/// extra bits: 3 code bytes each, but up to 31 bits once coded with the fixed tables).
+pub fn max_block_input() -> Input {
+    let mut l = crate::util::Lcg(0xb16b ^ crate::util::seed());
+    let base: Vec<u8> = (0..20_000).map(|_| l.byte()).collect();
+    let mut d: Vec<u8> = Vec::with_capacity(2_600_000);
+    let mut n = 0u32;
+    while d.len() < 2_600_000 {
+        d.extend_from_slice(&base);
+        let at = d.len() - 20_000;
+        let mut i = at + (n as usize * 7) % 200;
+        while i < d.len() {
+            d[i] = d[i].wrapping_add(1 + (n % 250) as u8);
+            i += 200;
+        }
+        n += 1;
+    }
+    Input { name: "max-block:P20000".into(), data: d }
+}
+
 /// Probes for the ring slots shared by the oldest dictionary bytes and the newest look-ahead bytes:
 /// filler (bytes >= 0x80), "Seedmark" at P, "seedmark" `gap` bytes later (the first bytes differ only
 /// in bits the 3-byte hash drops, so the old position is a candidate), and the current first byte
